@@ -171,7 +171,9 @@ def run(ctx):
                 out = drive(run, pat)
                 plt.close("all")
                 drive(refrun, pat)
-                if any(l.startswith("console") for l in labels):
+                solved = [e for e in run.events if e["ev"] == "ret" and e["name"] == "solve"]
+                if any(l.startswith("console") for l in labels) and solved and solved[-1]["raised"] == "none":
+                    # (if another listener's OnMethodStop raised - the recorded interpolation finding - the console never got its turn)
                     ev = parse_console(out)
                     if ev is None:
                         ev = {"ev": "cb", "kind": "console", "gtr": -1, "ltr": -1, "point": [], "value": "0", "acc": "0"}
